@@ -189,92 +189,97 @@ fn id(v: &str) -> J { json!(["id", v]) }
 fn call1(f: &str, x: J) -> J { json!(["call", ["id", f], [x]]) }
 fn bin(op: &str, l: J, r: J) -> J { json!([op, l, r]) }
 
-fn gen_tree(rng: &mut Rng, sort: &str, depth: u32) -> J {
+/// plain: no unit identifiers and no temperature sugar below this point (used for the callee of a call through a
+/// function value: the prefix transformer does not visit callee expressions, so units there are unknown identifiers -
+/// a defect outside C15 that would make inputs and repaired echoes fail for an unrelated reason)
+fn gen_tree(rng: &mut Rng, sort: &str, depth: u32, plain: bool) -> J {
     let leaf = depth == 0 || rng.chance(1, 5);
     let d1 = depth.saturating_sub(1);
     match sort {
         "n" => {
             if leaf { return if rng.chance(1, 4) { id("zqx") } else { leaf_num(*rng.pick(&["2", "3", "5"])) }; }
             match rng.below(16) {
-                0 => json!(["neg", gen_tree(rng, "n", d1)]),
-                1 => call1("sqr", gen_tree(rng, "n", d1)),
-                2 => call1(*rng.pick(&["°C", "celsius", "°F"]), gen_tree(rng, "tk", d1)),
-                3 | 4 => bin("mul", gen_tree(rng, "n", d1), gen_tree(rng, "n", d1)),
-                5 => bin("div", gen_tree(rng, "n", d1), gen_tree(rng, "n", d1)),
-                6 | 7 => bin("add", gen_tree(rng, "n", d1), gen_tree(rng, "n", d1)),
-                8 => bin("sub", gen_tree(rng, "n", d1), gen_tree(rng, "n", d1)),
-                9 => bin("pow", gen_tree(rng, "n", d1), if rng.chance(1, 2) { leaf_num(*rng.pick(&["2", "3", "5"])) } else { gen_tree(rng, "n", d1.min(1)) }),
-                10 => bin("conv", gen_tree(rng, "n", d1), gen_tree(rng, "n", d1)),
-                11 => bin("div", gen_tree(rng, "d", d1), gen_tree(rng, "d", d1)),
-                12 => json!(["if", gen_tree(rng, "b", d1), gen_tree(rng, "n", d1), gen_tree(rng, "n", d1)]),
-                13 => call1("str_length", gen_tree(rng, "s", d1)),
-                14 => json!(["call", gen_tree(rng, "f", d1), [gen_tree(rng, "n", d1)]]),
+                0 => json!(["neg", gen_tree(rng, "n", d1, plain)]),
+                1 => call1("sqr", gen_tree(rng, "n", d1, plain)),
+                2 if !plain => call1(*rng.pick(&["°C", "celsius", "°F"]), gen_tree(rng, "tk", d1, plain)),
+                2 => call1("sqr", gen_tree(rng, "n", d1, plain)),
+                3 | 4 => bin("mul", gen_tree(rng, "n", d1, plain), gen_tree(rng, "n", d1, plain)),
+                5 => bin("div", gen_tree(rng, "n", d1, plain), gen_tree(rng, "n", d1, plain)),
+                6 | 7 => bin("add", gen_tree(rng, "n", d1, plain), gen_tree(rng, "n", d1, plain)),
+                8 => bin("sub", gen_tree(rng, "n", d1, plain), gen_tree(rng, "n", d1, plain)),
+                9 => bin("pow", gen_tree(rng, "n", d1, plain), if rng.chance(1, 2) { leaf_num(*rng.pick(&["2", "3", "5"])) } else { gen_tree(rng, "n", d1.min(1), plain) }),
+                10 => bin("conv", gen_tree(rng, "n", d1, plain), gen_tree(rng, "n", d1, plain)),
+                11 => bin("div", gen_tree(rng, "d", d1, plain), gen_tree(rng, "d", d1, plain)),
+                12 => json!(["if", gen_tree(rng, "b", d1, plain), gen_tree(rng, "n", d1, plain), gen_tree(rng, "n", d1, plain)]),
+                13 => call1("str_length", gen_tree(rng, "s", d1, plain)),
+                14 => json!(["call", gen_tree(rng, "f", d1, true), [gen_tree(rng, "n", d1, plain)]]),
                 _ => json!(["fact", 1 + rng.below(2), leaf_num(*rng.pick(&["2", "3", "5"]))]),
             }
         }
         "d" => {
-            if leaf { return match rng.below(3) { 0 => json!(["unit", "m", "metre"]), 1 => json!(["unit", "cm", "centimetre"]), _ => id("zql") }; }
+            if leaf { return match rng.below(if plain { 1 } else { 3 }) { 1 => json!(["unit", "m", "metre"]), 2 => json!(["unit", "cm", "centimetre"]), _ => id("zql") }; }
             match rng.below(12) {
-                0 => json!(["neg", gen_tree(rng, "d", d1)]),
-                1 | 2 => bin("mul", gen_tree(rng, "n", d1), gen_tree(rng, "d", d1)),
-                3 => bin("mul", gen_tree(rng, "d", d1), gen_tree(rng, "n", d1)),
-                4 => bin("div", gen_tree(rng, "d", d1), gen_tree(rng, "n", d1)),
-                5 | 6 => bin("add", gen_tree(rng, "d", d1), gen_tree(rng, "d", d1)),
-                7 => bin("sub", gen_tree(rng, "d", d1), gen_tree(rng, "d", d1)),
-                8 => bin("conv", gen_tree(rng, "d", d1), gen_tree(rng, "d", d1)),
-                9 => json!(["if", gen_tree(rng, "b", d1), gen_tree(rng, "d", d1), gen_tree(rng, "d", d1)]),
-                10 => json!(["field", gen_tree(rng, "st", d1), "a"]),
-                _ => call1("head", gen_tree(rng, "l", d1)),
+                0 => json!(["neg", gen_tree(rng, "d", d1, plain)]),
+                1 | 2 => bin("mul", gen_tree(rng, "n", d1, plain), gen_tree(rng, "d", d1, plain)),
+                3 => bin("mul", gen_tree(rng, "d", d1, plain), gen_tree(rng, "n", d1, plain)),
+                4 => bin("div", gen_tree(rng, "d", d1, plain), gen_tree(rng, "n", d1, plain)),
+                5 | 6 => bin("add", gen_tree(rng, "d", d1, plain), gen_tree(rng, "d", d1, plain)),
+                7 => bin("sub", gen_tree(rng, "d", d1, plain), gen_tree(rng, "d", d1, plain)),
+                8 => bin("conv", gen_tree(rng, "d", d1, plain), gen_tree(rng, "d", d1, plain)),
+                9 => json!(["if", gen_tree(rng, "b", d1, plain), gen_tree(rng, "d", d1, plain), gen_tree(rng, "d", d1, plain)]),
+                10 => json!(["field", gen_tree(rng, "st", d1, plain), "a"]),
+                _ => call1("head", gen_tree(rng, "l", d1, plain)),
             }
         }
         "x" => match rng.below(8) {
-            0 | 1 => bin("pow", gen_tree(rng, "d", d1), leaf_num(*rng.pick(&["2", "3", "5"]))),
-            2 => bin("mul", gen_tree(rng, "d", d1), gen_tree(rng, "d", d1)),
-            3 => bin("div", gen_tree(rng, "n", d1), gen_tree(rng, "d", d1)),
-            4 => call1("sqr", gen_tree(rng, "d", d1)),
-            5 => bin("mul", gen_tree(rng, "n", d1), gen_tree(rng, "d", d1)),
-            6 => bin("pow", gen_tree(rng, "tk", d1), leaf_num(*rng.pick(&["2", "3"]))),
-            _ => json!(["neg", bin("mul", gen_tree(rng, "d", d1), gen_tree(rng, "d", d1))]),
+            0 | 1 => bin("pow", gen_tree(rng, "d", d1, plain), leaf_num(*rng.pick(&["2", "3", "5"]))),
+            2 => bin("mul", gen_tree(rng, "d", d1, plain), gen_tree(rng, "d", d1, plain)),
+            3 => bin("div", gen_tree(rng, "n", d1, plain), gen_tree(rng, "d", d1, plain)),
+            4 => call1("sqr", gen_tree(rng, "d", d1, plain)),
+            5 => bin("mul", gen_tree(rng, "n", d1, plain), gen_tree(rng, "d", d1, plain)),
+            6 if !plain => bin("pow", gen_tree(rng, "tk", d1, plain), leaf_num(*rng.pick(&["2", "3"]))),
+            6 => call1("sqr", gen_tree(rng, "d", d1, plain)),
+            _ => json!(["neg", bin("mul", gen_tree(rng, "d", d1, plain), gen_tree(rng, "d", d1, plain))]),
         },
         "tk" => {
-            if leaf { return call1(*rng.pick(&["from_celsius", "from_fahrenheit"]), gen_tree(rng, "n", 0)); }
+            if leaf { return call1(*rng.pick(&["from_celsius", "from_fahrenheit"]), gen_tree(rng, "n", 0, plain)); }
             match rng.below(5) {
-                0 | 1 => call1(*rng.pick(&["from_celsius", "from_fahrenheit"]), gen_tree(rng, "n", d1)),
-                2 => json!(["neg", gen_tree(rng, "tk", d1)]),
-                3 => bin("mul", gen_tree(rng, "n", d1), gen_tree(rng, "tk", d1)),
-                _ => bin("conv", gen_tree(rng, "tk", d1), gen_tree(rng, "tk", d1)),
+                0 | 1 => call1(*rng.pick(&["from_celsius", "from_fahrenheit"]), gen_tree(rng, "n", d1, plain)),
+                2 => json!(["neg", gen_tree(rng, "tk", d1, plain)]),
+                3 => bin("mul", gen_tree(rng, "n", d1, plain), gen_tree(rng, "tk", d1, plain)),
+                _ => bin("conv", gen_tree(rng, "tk", d1, plain), gen_tree(rng, "tk", d1, plain)),
             }
         }
         "b" => {
             if leaf { return json!(["bool", *rng.pick(&["true", "false"])]); }
             match rng.below(8) {
-                0 => json!(["not", gen_tree(rng, "b", d1)]),
-                1 | 2 => bin(*rng.pick(&["lt", "gt", "le", "ge", "eq", "ne"]), gen_tree(rng, "n", d1), gen_tree(rng, "n", d1)),
-                3 => bin(*rng.pick(&["lt", "gt", "le", "ge", "eq", "ne"]), gen_tree(rng, "d", d1), gen_tree(rng, "d", d1)),
-                4 | 5 => bin("and", gen_tree(rng, "b", d1), gen_tree(rng, "b", d1)),
-                6 => bin("or", gen_tree(rng, "b", d1), gen_tree(rng, "b", d1)),
-                _ => json!(["if", gen_tree(rng, "b", d1), gen_tree(rng, "b", d1), gen_tree(rng, "b", d1)]),
+                0 => json!(["not", gen_tree(rng, "b", d1, plain)]),
+                1 | 2 => bin(*rng.pick(&["lt", "gt", "le", "ge", "eq", "ne"]), gen_tree(rng, "n", d1, plain), gen_tree(rng, "n", d1, plain)),
+                3 => bin(*rng.pick(&["lt", "gt", "le", "ge", "eq", "ne"]), gen_tree(rng, "d", d1, plain), gen_tree(rng, "d", d1, plain)),
+                4 | 5 => bin("and", gen_tree(rng, "b", d1, plain), gen_tree(rng, "b", d1, plain)),
+                6 => bin("or", gen_tree(rng, "b", d1, plain), gen_tree(rng, "b", d1, plain)),
+                _ => json!(["if", gen_tree(rng, "b", d1, plain), gen_tree(rng, "b", d1, plain), gen_tree(rng, "b", d1, plain)]),
             }
         }
         "st" => {
             if leaf { return id("zqs"); }
             match rng.below(3) {
-                0 | 1 => json!(["mk", "Zqp", [["a", gen_tree(rng, "d", d1)]]]),
-                _ => json!(["if", gen_tree(rng, "b", d1), gen_tree(rng, "st", d1), gen_tree(rng, "st", d1)]),
+                0 | 1 => json!(["mk", "Zqp", [["a", gen_tree(rng, "d", d1, plain)]]]),
+                _ => json!(["if", gen_tree(rng, "b", d1, plain), gen_tree(rng, "st", d1, plain), gen_tree(rng, "st", d1, plain)]),
             }
         }
         "f" => {
             if leaf { return id("sqr"); }
-            json!(["if", gen_tree(rng, "b", d1), gen_tree(rng, "f", d1), gen_tree(rng, "f", d1)])
+            json!(["if", gen_tree(rng, "b", d1, plain), gen_tree(rng, "f", d1, plain), gen_tree(rng, "f", d1, plain)])
         }
         "l" => {
-            if rng.chance(1, 2) { json!(["list", [gen_tree(rng, "d", d1)]]) } else { json!(["list", [gen_tree(rng, "d", d1), gen_tree(rng, "d", d1)]]) }
+            if rng.chance(1, 2) { json!(["list", [gen_tree(rng, "d", d1, plain)]]) } else { json!(["list", [gen_tree(rng, "d", d1, plain), gen_tree(rng, "d", d1, plain)]]) }
         }
         _ => match rng.below(4) {
             0 => json!(["str", [["fix", ["a"]]]]),
-            1 => json!(["str", [["fix", ["x"]], ["ipl", gen_tree(rng, "d", d1), ""], ["fix", ["y"]]]]),
-            2 => json!(["str", [["ipl", gen_tree(rng, "n", d1), ":.2f"]]]),
-            _ => json!(["str", [["fix", ["q", "\"", " ", "{", "}", "\\"]], ["ipl", gen_tree(rng, "n", d1), ""], ["fix", ["\n"]]]]),
+            1 => json!(["str", [["fix", ["x"]], ["ipl", gen_tree(rng, "d", d1, plain), ""], ["fix", ["y"]]]]),
+            2 => json!(["str", [["ipl", gen_tree(rng, "n", d1, plain), ":.2f"]]]),
+            _ => json!(["str", [["fix", ["q", "\"", " ", "{", "}", "\\"]], ["ipl", gen_tree(rng, "n", d1, plain), ""], ["fix", ["\n"]]]]),
         },
     }
 }
@@ -369,7 +374,7 @@ fn j_record(args: &[String]) -> i32 {
     let bn = names(&base);
     let mut rng = Rng::new(seed);
     let sorts = ["n", "d", "x", "tk", "b", "st", "l", "s"];
-    let trees: Vec<J> = (0..n).map(|_| { let s = *rng.pick(&sorts); let d = 2 + rng.below(depth as u64 - 1) as u32; gen_tree(&mut rng, s, d) }).collect();
+    let trees: Vec<J> = (0..n).map(|_| { let s = *rng.pick(&sorts); let d = 2 + rng.below(depth as u64 - 1) as u32; gen_tree(&mut rng, s, d, false) }).collect();
     let results: Vec<J> = par_map(&trees, threads, |t| {
         let input = render(t);
         let mut o = roundtrip(&base, &bn, &input, &[]);
